@@ -127,6 +127,8 @@ type peer struct {
 	sock   mangos.Socket
 	attach chan struct{}
 	detach chan struct{}
+	tAtt   atomic.Int64 // unix nanos of the last attach / detach (diagnostics only)
+	tDet   atomic.Int64
 }
 
 func newPeer(ctor func() (mangos.Socket, error)) (*peer, error) {
@@ -138,11 +140,13 @@ func newPeer(ctor func() (mangos.Socket, error)) (*peer, error) {
 	s.SetPipeEventHook(func(ev mangos.PipeEvent, _ mangos.Pipe) {
 		switch ev {
 		case mangos.PipeEventAttached:
+			pe.tAtt.Store(time.Now().UnixNano())
 			select {
 			case pe.attach <- struct{}{}:
 			default:
 			}
 		case mangos.PipeEventDetached:
+			pe.tDet.Store(time.Now().UnixNano())
 			select {
 			case pe.detach <- struct{}{}:
 			default:
